@@ -118,6 +118,23 @@ def build(spec):
         o = D.ChainedDiscretizer(qualitative_features=categ + ordinal, min_freq=min_freq,
                                  chained_orders=[D.GroupedList({k: list(v) for k, v in lvl.items()}) for lvl in spec['chained_orders']],
                                  unknown_handling=p.get('unknown_handling', 'raise'), **common)
+    elif cls == 'ChainedThenCarver':
+        # the test-suite's main scenario: a ChainedDiscretizer prepares the order of hierarchical features,
+        # its values_orders (groups already formed) are handed to a BinaryCarver as ordinal features
+        hier = [f for f, d in feats.items() if d.get('chained')]
+        chained = D.ChainedDiscretizer(qualitative_features=hier, min_freq=min_freq,
+                                       chained_orders=[D.GroupedList({k: list(v) for k, v in lvl.items()}) for lvl in spec['chained_orders']],
+                                       unknown_handling='drop', copy=True)
+        import contextlib
+        import io
+        with contextlib.redirect_stdout(io.StringIO()):
+            chained.fit(X, y)
+        kept_h = [f for f in hier if f in chained.features]
+        vo = {f: chained.values_orders[f] for f in kept_h}
+        o = carvers.BinaryCarver(sort_by=p.get('sort_by', 'tschuprowt'), min_freq=min_freq,
+                                 quantitative_features=quanti, qualitative_features=[f for f in categ if f not in hier],
+                                 ordinal_features=kept_h, values_orders=vo, max_n_mod=p.get('max_n_mod', 5),
+                                 dropna=bool(p.get('dropna', True)), output_dtype=p.get('output_dtype', 'float'), **common)
     elif cls == 'BaseDiscretizer':
         vo = {f: D.GroupedList({k: list(v) for k, v in spec['vo'][f]}) for f in feats}
         o = D.BaseDiscretizer(features=list(feats), values_orders=vo,
